@@ -25,6 +25,13 @@ class Deadlock(Exception):
     """The loop has nothing scheduled and nothing ready: virtual time cannot advance."""
 
 
+class Livelock(Exception):
+    """The loop keeps running callbacks without virtual time ever advancing (a busy spin in real time)."""
+
+
+LIVELOCK_ITERATIONS = 200_000
+
+
 class VClock:
     def __init__(self, start: float = 100.0):
         self.t = start
@@ -99,6 +106,8 @@ class VLoop(asyncio.SelectorEventLoop):
         self.net = net
         self._clock_resolution = 1e-9
         self.iterations = 0
+        self._spin_t = -1.0
+        self._spin_n = 0
 
     def time(self) -> float:
         return self.vclock.t
@@ -108,6 +117,14 @@ class VLoop(asyncio.SelectorEventLoop):
 
     def _run_once(self) -> None:
         self.iterations += 1
+        if self.vclock.t != self._spin_t:
+            self._spin_t = self.vclock.t
+            self._spin_n = 0
+        else:
+            self._spin_n += 1
+            if self._spin_n > LIVELOCK_ITERATIONS:
+                self._spin_n = 0
+                raise Livelock("%d loop iterations at virtual time %.6f" % (LIVELOCK_ITERATIONS, self.vclock.t))
         super()._run_once()
 
     async def create_datagram_endpoint(self, protocol_factory, local_addr=None, remote_addr=None, *, sock=None, **kw):
@@ -295,6 +312,7 @@ class Net:
         self.pending_host: Optional[SimHost] = None
         self.tx_count = 0
         self.on_deliver: Optional[Callable[[Dict[str, Any]], None]] = None
+        self.after_deliver: Optional[Callable[[Dict[str, Any]], None]] = None
         self.duplicate_all = False    # C16: re-deliver every datagram immediately on the same socket
         self.dup_hook: Optional[Callable[[str], None]] = None
 
@@ -313,6 +331,8 @@ class Net:
     def transmit(self, sock: FakeSocket, data: bytes, addr: Any) -> None:
         host = sock.host
         dst_ip, dst_port = addr[0], addr[1]
+        if dst_ip.startswith("::ffff:") and "." in dst_ip:
+            dst_ip = dst_ip[7:]          # IPv4-mapped destination on a dual-stack socket goes out as IPv4
         v6 = ":" in dst_ip
         src = (host.src_ip_for(sock, v6), PORT)
         idx = self.tx_count
@@ -371,8 +391,17 @@ class Net:
     # -- delivery
     def _schedule(self, sock: FakeSocket, data: bytes, src: Tuple, v6: bool, delay_ms: float, tx_index: int = -1) -> None:
         assert self.loop is not None
-        addr = (src[0], src[1], 0, sock.scope or 2) if (v6 and sock.family == socket.AF_INET6) else (src[0], src[1])
+        addr = self._addr_for(sock, src, v6)
         self.loop.call_at(self.clock.t + delay_ms / 1000.0, self._deliver, sock, data, addr, tx_index)
+
+    @staticmethod
+    def _addr_for(sock: FakeSocket, src: Tuple, v6: bool) -> Tuple:
+        """The source address as recvfrom() on that socket reports it (dual-stack sockets map IPv4 peers)."""
+        if sock.family == socket.AF_INET6:
+            if v6:
+                return (src[0], src[1], 0, sock.scope or 2)
+            return ("::ffff:" + src[0], src[1], 0, 0)
+        return (src[0], src[1])
 
     def _deliver(self, sock: FakeSocket, data: bytes, addr: Tuple, tx_index: int) -> None:
         if sock.closed or sock.transport is None or sock.transport.dead:
@@ -396,7 +425,11 @@ class Net:
                     if self.dup_hook:
                         self.dup_hook("end")
             return
-        proto.datagram_received(data, addr)
+        try:
+            proto.datagram_received(data, addr)
+        finally:
+            if self.after_deliver is not None:
+                self.after_deliver(rec)
 
     def inject(self, host: SimHost, data: bytes, src: Tuple[str, int], delay_ms: float = 0.0, sock: Optional[FakeSocket] = None,
                multicast: bool = True) -> None:
@@ -418,8 +451,7 @@ class Net:
             else:
                 cands = [s for s in host.respond if (s.family == socket.AF_INET6) == v6] or host.listen
                 sock = cands[0]
-        addr = (src[0], src[1], 0, sock.scope or 2) if (v6 and sock.family == socket.AF_INET6) else (src[0], src[1])
-        self._deliver(sock, data, addr, -1)
+        self._deliver(sock, data, self._addr_for(sock, src, v6), -1)
 
 
 # ---------------------------------------------------------------------------------------
